@@ -19,6 +19,7 @@ import re
 from ..prog import AnalysisError, FuncInfo, dotted, unparse
 from ..match import pretty
 from ..typestate import Machine, N, S, T, E
+from .. import sem
 from . import msgutil as MU
 
 PROP = "C18"
@@ -173,60 +174,84 @@ def run(ctx):
         got = P.try_fold(consts, consts.consts.get(cname)) if cname in consts.consts else None
         ctx.ob("C18.timers", "vam_constants", cname, got == want, f"{cname} = {got} s (TS 103 300-3 Table 14: {want} s)", f"{consts.rel}:1")
 
-    def timer_rule(fn_name, what, select, must, must_not=()):
+    def head_facts(fi, fl, n) -> set:
+        """Canonical guard atoms at the head of the block enclosing n (before any store of the block kills them)."""
+        return sem.facts(fl, block_head(fi, n))
+
+    def timer_rule(fn_name, what, select, must: str, must_not=()):
         fi = mgr.methods[fn_name]
         fl = ctx.flows.get(fi)
-        nodes = [n for n in ast.walk(fi.node) if select(n)]
+        nodes = [n for n in ast.walk(fi.node) if select(n, fi, fl)]
         if not nodes:
-            raise AnalysisError(f"C18: {what} not found in {fn_name}")
+            ctx.ob("C18.timers", fi.short(), what, False, f"{what}: the transition is no longer made in {fn_name}", fi.loc)
+            return
         for n in nodes:
-            g = guards_of(fl, block_head(fi, n))      # facts at the head of the enclosing block: before any store kills them
-            miss = [m for m in must if m not in g]
-            extra = [x for x in g if any(b in x for b in must_not)]
-            ok = not miss and not extra
+            g = head_facts(fi, fl, n)
+            ok_must = sem.holds(g, must)
+            extra = sorted(x for x in g if any(b in x for b in must_not))
+            ok = ok_must and not extra
             ctx.ob("C18.timers", fi.short(), what, ok,
-                   f"{what}: guarded by {must}" if ok else f"{what}: guards in force {g}; missing {miss}; must not depend on {extra}",
+                   f"{what}: happens under `{must}`" if ok else
+                   f"{what}: needs `{must}`" + (f" and must not depend on {list(must_not)}" if must_not else "") + f"; guards in force {sorted(g)}",
                    f"{fi.module.rel}:{n.lineno}")
 
-    def store_of(attr, valtxt):
-        return lambda n: isinstance(n, ast.Assign) and dotted(n.targets[0]) == f"self.{attr}" and norm(unparse(n.value)) == valtxt
+    def store_of(attr, valsrc):
+        def sel(n, fi, fl):
+            if not (isinstance(n, ast.Assign) and dotted(n.targets[0]) == f"self.{attr}" and id(n) in fl.before):
+                return False
+            return sem.same(fl.expand(n.value, fl.before[id(n)]), valsrc)
+        return sel
 
     def call_of(name):
-        return lambda n: isinstance(n, ast.Call) and dotted(n.func) == f"self.{name}"
+        return lambda n, fi, fl: isinstance(n, ast.Call) and dotted(n.func) == f"self.{name}"
 
+    C = "vam_constants"
     timer_rule("_update_standalone", "join-notify->waiting", store_of("_join_substate", "_JoinSubstate.WAITING"),
-               ["self._join_substateis_JoinSubstate.NOTIFY", "now-self._join_started>=vam_constants.TIME_CLUSTER_JOIN_NOTIFICATION"])
+               f"self._join_substate is _JoinSubstate.NOTIFY and now - self._join_started >= {C}.TIME_CLUSTER_JOIN_NOTIFICATION")
     timer_rule("_update_standalone", "join-waiting->failed", call_of("confirm_join_failed"),
-               ["self._join_substateis_JoinSubstate.WAITING", "now-self._join_started>=vam_constants.TIME_CLUSTER_JOIN_SUCCESS"])
+               f"self._join_substate is _JoinSubstate.WAITING and now - self._join_started >= {C}.TIME_CLUSTER_JOIN_SUCCESS")
     timer_rule("_update_standalone", "join-leave-notify-ends", store_of("_join_substate", "_JoinSubstate.NONE"),
-               ["now-self._join_leave_started>=vam_constants.TIME_CLUSTER_LEAVE_NOTIFICATION"])
+               f"now - self._join_leave_started >= {C}.TIME_CLUSTER_LEAVE_NOTIFICATION")
     timer_rule("_update_standalone", "leave-notify-ends", store_of("_leave_substate", "_LeaveSubstate.NONE"),
-               ["self._leave_substateis_LeaveSubstate.NOTIFY", "now-self._leave_started>=vam_constants.TIME_CLUSTER_LEAVE_NOTIFICATION"],
+               f"self._leave_substate is _LeaveSubstate.NOTIFY and now - self._leave_started >= {C}.TIME_CLUSTER_LEAVE_NOTIFICATION",
                must_not=("_join_substate",))
     timer_rule("_update_passive", "leave-notify-ends", store_of("_leave_substate", "_LeaveSubstate.NONE"),
-               ["self._leave_substateis_LeaveSubstate.NOTIFY", "now-self._leave_started>=vam_constants.TIME_CLUSTER_LEAVE_NOTIFICATION"])
+               f"self._leave_substate is _LeaveSubstate.NOTIFY and now - self._leave_started >= {C}.TIME_CLUSTER_LEAVE_NOTIFICATION")
     timer_rule("_update_leader", "breakup-warning-ends", store_of("_state", "VBSState.VRU_ACTIVE_STANDALONE"),
-               ["now-self._cluster.breakup_started>=vam_constants.TIME_CLUSTER_BREAKUP_WARNING"])
+               f"now - self._cluster.breakup_started >= {C}.TIME_CLUSTER_BREAKUP_WARNING")
     timer_rule("_update_passive", "leader-lost", call_of("_do_leave_to_standalone"),
-               ["now-self._last_leader_vam_time>=vam_constants.TIME_CLUSTER_CONTINUITY"], must_not=("_leave_substate", "_join_substate"))
+               f"now - self._last_leader_vam_time >= {C}.TIME_CLUSTER_CONTINUITY", must_not=("_leave_substate", "_join_substate"))
 
-    # phase start stamps
+    def is_now(fi, fl, value, st) -> bool:
+        """The value is a reading of the clock: self._time_fn() (possibly through a local) or the `now` handed in by update()."""
+        x = fl.expand(value, st)
+        if isinstance(x, ast.Call) and dotted(x.func) == "self._time_fn" and not x.args:
+            return True
+        return isinstance(x, ast.Name) and x.id == "now" and "now" in fi.params
+
+    # phase start stamps: the statement list that enters a phase also stamps its timer with the current time
     def stamped(fn_name, sub_attr, sub_val, stamp_attr):
         fi = mgr.methods[fn_name]
+        fl = ctx.flows.get(fi)
         hit = False
         for blk in ast.walk(fi.node):
-            body = getattr(blk, "body", None)
-            if not isinstance(body, list):
-                continue
-            for lst in (body, getattr(blk, "orelse", []) or []):
-                names = [(dotted(s.targets[0]), norm(unparse(s.value))) for s in lst if isinstance(s, ast.Assign)]
-                if (f"self.{sub_attr}", sub_val) in names:
-                    hit = True
-                    ok = any(t == f"self.{stamp_attr}" and v in ("self._time_fn()", "now") for t, v in names)
-                    ctx.ob("C18.timers", fi.short(), f"stamp:{sub_val or sub_attr}", ok,
-                           f"entering {sub_val} stamps {stamp_attr} with the current time in the same block", fi.loc)
+            for fld in ("body", "orelse", "finalbody"):
+                lst = getattr(blk, fld, None)
+                if not (isinstance(lst, list) and lst and isinstance(lst[0], ast.stmt)):
+                    continue
+                enters = [x for x in lst if isinstance(x, ast.Assign) and dotted(x.targets[0]) == f"self.{sub_attr}" and id(x) in fl.before
+                          and sem.same(fl.expand(x.value, fl.before[id(x)]), sub_val)]
+                if not enters:
+                    continue
+                hit = True
+                ok = any(isinstance(x, ast.Assign) and dotted(x.targets[0]) == f"self.{stamp_attr}" and id(x) in fl.before and
+                         is_now(fi, fl, x.value, fl.before[id(x)]) for x in lst)
+                ctx.ob("C18.timers", fi.short(), f"stamp:{sub_val}", ok,
+                       f"entering {sub_val} stamps {stamp_attr} with the current time" if ok else
+                       f"{sub_val} is entered without stamping {stamp_attr} with the current time: the phase's duration is measured from a stale instant",
+                       f"{fi.module.rel}:{enters[0].lineno}")
         if not hit:
-            raise AnalysisError(f"C18: store {sub_attr} = {sub_val} not found in {fn_name}")
+            ctx.ob("C18.timers", fi.short(), f"stamp:{sub_val}", False, f"{fn_name} no longer enters {sub_val}", fi.loc)
 
     stamped("initiate_join", "_join_substate", "_JoinSubstate.NOTIFY", "_join_started")
     stamped("_update_standalone", "_join_substate", "_JoinSubstate.WAITING", "_join_started")
@@ -235,24 +260,45 @@ def run(ctx):
     stamped("_do_leave_to_standalone", "_leave_substate", "_LeaveSubstate.NOTIFY", "_leave_started")
     stamped("_complete_join", "_state", "VBSState.VRU_PASSIVE", "_last_leader_vam_time")
     tb = mgr.methods["trigger_breakup_cluster"]
-    ctx.ob("C18.timers", tb.short(), "stamp:breakup", "self._cluster.breakup_started=self._time_fn()" in norm(unparse(tb.node)),
-           "starting the break-up warning stamps breakup_started", tb.loc)
+    tfl = ctx.flows.get(tb)
+    bs = [n for n in ast.walk(tb.node) if isinstance(n, ast.Assign) and dotted(n.targets[0]) == "self._cluster.breakup_started" and id(n) in tfl.before]
+    ctx.ob("C18.timers", tb.short(), "stamp:breakup", bool(bs) and all(is_now(tb, tfl, n.value, tfl.before[id(n)]) for n in bs),
+           "starting the break-up warning stamps breakup_started with the current time", tb.loc)
     up = mgr.methods["update"]
-    src = norm(unparse(up.node))
-    ctx.ob("C18.timers", up.short(), "clock", "now=self._time_fn()" in src and "self._update_passive(now," in src and "self._update_standalone(now," in src
-           and "self._update_leader(now," in src, "update() reads the clock once and hands it to the per-state handlers", up.loc)
-    # dispatch: via the typestate machine - update() from a passive state can reach stand-alone, from nothing else to passive
+    ufl = ctx.flows.get(up)
+    hcalls = [c for c in P.calls_in(up) if (dotted(c.func) or "") in ("self._update_passive", "self._update_standalone", "self._update_leader")]
+    okc = len({dotted(c.func) for c in hcalls}) == 3
+    for c in hcalls:
+        x = ufl.expand(c.args[0], ufl.state_at(c)) if c.args else None
+        okc = okc and isinstance(x, ast.Call) and dotted(x.func) == "self._time_fn"
+    ctx.ob("C18.timers", up.short(), "clock", okc, "update() hands a reading of the clock to each of the three per-state handlers", up.loc)
+    for hname, stname in (("_update_passive", "VRU_PASSIVE"), ("_update_standalone", "VRU_ACTIVE_STANDALONE"), ("_update_leader", "VRU_ACTIVE_CLUSTER_LEADER")):
+        cs = [c for c in hcalls if dotted(c.func) == f"self.{hname}"]
+        okd = bool(cs) and all(sem.holds(sem.facts(ufl, c), f"self._state is VBSState.{stname}") for c in cs)
+        ctx.ob("C18.timers", up.short(), f"dispatch:{hname}", okd, f"{hname} runs exactly for state {stname}", up.loc)
+    # dispatch: via the typestate machine - update() from a passive state can reach stand-alone
     up_tr = [(a, b) for name, a, b, kind, val in M.transitions if name == "update"]
     p2a = any(dict(a)["_state"] == PASSIVE and dict(b)["_state"] == ALONE for a, b in up_tr)
     ctx.ob("C18.recovery", up.short(), "passive->standalone-possible", p2a, "update() has a path from passive to stand-alone (leader lost)", up.loc)
     dl = mgr.methods["_do_leave_to_standalone"]
-    src = norm(unparse(dl.node))
-    ctx.ob("C18.recovery", dl.short(), "unconditional", not any(isinstance(n, (ast.If, ast.Return, ast.Try, ast.While, ast.For)) for n in ast.walk(dl.node))
-           and "self._state=VBSState.VRU_ACTIVE_STANDALONE" in src, "_do_leave_to_standalone always ends stand-alone (straight-line code)", dl.loc)
+    dfl = ctx.flows.get(dl)
+    st_stores = [n for n in dl.node.body if isinstance(n, ast.Assign) and dotted(n.targets[0]) == "self._state"]
+    straight = not any(isinstance(n, (ast.If, ast.Return, ast.Try, ast.While, ast.For, ast.Raise)) for n in ast.walk(dl.node))
+    ctx.ob("C18.recovery", dl.short(), "unconditional", straight and bool(st_stores) and sem.same(st_stores[-1].value, "VBSState.VRU_ACTIVE_STANDALONE"),
+           "_do_leave_to_standalone always ends stand-alone (straight-line code, last state store)", dl.loc)
 
     # heartbeat provenance: only the leader's VAMs (or the join completion) refresh the leader-lost timer
     pr = mgr.methods["_process_received_vam"]
     prf = ctx.flows.get(pr)
+    sender = None
+    for n in ast.walk(pr.node):
+        if isinstance(n, (ast.Assign, ast.AnnAssign)) and n.value is not None:
+            t = n.targets[0] if isinstance(n, ast.Assign) else n.target
+            if isinstance(t, ast.Name) and sem.cx(n.value).endswith("['stationId']"):
+                sender = sem.cx(prf.expand(ast.Name(id=t.id, ctx=ast.Load()), prf.after.get(id(n), prf.before[id(n)]))) if id(n) in prf.before else t.id
+                sender_name = t.id
+    if sender is None:
+        raise AnalysisError("C18: the sender's station id is no longer read from the VAM header in _process_received_vam")
     n_hb = 0
     for m in mgr.methods.values():
         fl = ctx.flows.get(m)
@@ -261,45 +307,59 @@ def run(ctx):
                 if m.name == "_complete_join":
                     continue
                 n_hb += 1
-                g = guards_of(fl, n)
-                ok = "self._leader_station_id==sender_id" in g and "self._stateisVBSState.VRU_PASSIVE" in g and len([x for x in g if not x.startswith("not ")]) == 2
+                g = sem.facts(fl, n, expanded=False)
+                pos = {x for x in g if not x.startswith("!")}
+                want_l = set(sem.want(f"self._leader_station_id == {sender_name}")) | set(sem.want("self._state is VBSState.VRU_PASSIVE"))
+                ok = pos == want_l
                 ctx.ob("C18.recovery", m.short(), "heartbeat-only-from-leader", ok,
                        "the leader-lost timer is refreshed only by a VAM whose sender is the joined cluster's leader" if ok else
-                       f"the leader-lost timer is refreshed under {g}: VAMs of other stations keep a passive station silent after its leader is gone",
+                       f"the leader-lost timer is refreshed under {sorted(pos)}: VAMs of other stations keep a passive station silent after its leader is gone",
                        f"{m.module.rel}:{n.lineno}")
     if n_hb == 0:
-        raise AnalysisError("C18: no heartbeat refresh found")
+        ctx.ob("C18.recovery", pr.short(), "heartbeat-only-from-leader", False, "the leader's VAMs no longer refresh the leader-lost timer", pr.loc)
     # break-up from the leader
     calls = [n for n in ast.walk(pr.node) if isinstance(n, ast.Call) and dotted(n.func) == "self._do_leave_to_standalone"]
-    okb = False
+    okb, okl = False, False
     for c in calls:
-        g = guards_of(prf, c)
-        if "breakup_info" in g and "self._stateisVBSState.VRU_PASSIVE" in g:
-            negs = [x for x in g if x.startswith("not ")]
-            poss = [x for x in g if not x.startswith("not ")]
+        g = sem.facts(prf, c, expanded=False)
+        if sem.holds(g, "self._state is VBSState.VRU_PASSIVE") and any("breakup" in x.lower() and x.startswith("truthy(") for x in g):
+            negs = [x for x in g if x.startswith("!")]
+            poss = [x for x in g if not x.startswith("!")]
             # every reason except reception-of-CPM leads to stand-alone: the only reason-dependent guard is `reason != CPM`
-            okb = all("RECEPTION_OF_CPM_CONTAINING_CLUSTER" in x and "==" in x for x in negs) and not any("reason" in x for x in poss)
-            detail = f"guards: {g}"
+            okb = all("RECEPTION_OF_CPM_CONTAINING_CLUSTER" in x and x.startswith("!eq(") for x in negs if "reason" in x.lower() or "RECEPTION" in x) \
+                and not any("reason" in x.lower() for x in poss) and not [x for x in negs if "RECEPTION" not in x and "reason" not in x.lower()]
+            leader_atom = sem.want(f"self._leader_station_id == {sender_name}")[0]
+            okl = any(x == leader_atom or (x.startswith("or(") and leader_atom in x) for x in poss)
     ctx.ob("C18.recovery", pr.short(), "breakup-leads-to-standalone", okb,
            "a break-up announced while passive leads to stand-alone unless the reason is reception-of-CPM" if okb else
-           "no unconditional path from a received break-up (passive) to _do_leave_to_standalone", pr.loc)
-    st = prf.state_at(calls[0]) if calls else None
-    # the leader alternative is accepted
-    bsrc = norm(unparse(pr.node))
-    ctx.ob("C18.recovery", pr.short(), "breakup-from-leader-accepted", "self._stateisVBSState.VRU_PASSIVEand(self._leader_station_id==sender_idor" in bsrc,
-           "the break-up of the own leader (sender == leader) is accepted", pr.loc)
+           "no path from a received break-up (passive) to _do_leave_to_standalone that depends on nothing but `reason != reception-of-CPM`", pr.loc)
+    ctx.ob("C18.recovery", pr.short(), "breakup-from-leader-accepted", okl, "the break-up of the own leader (sender == leader) is accepted", pr.loc)
 
     # cluster id / cardinality provenance
     gen = mgr.methods["_generate_unique_cluster_id"]
+    gfl = ctx.flows.get(gen)
     rnd = [n for n in ast.walk(gen.node) if isinstance(n, ast.Call) and dotted(n.func) == "random.randint"]
-    ok = bool(rnd) and all(P.try_fold(gen.module, n.args[0]) is not None and P.try_fold(gen.module, n.args[0]) >= 1 and P.try_fold(gen.module, n.args[1]) <= 255 for n in rnd)
-    rets = [n for n in ast.walk(gen.node) if isinstance(n, ast.Return) and n.value is not None and not (isinstance(n.value, ast.Constant) and n.value.value is None)]
-    ok = ok and all(isinstance(r.value, ast.Name) and r.value.id == "candidate" for r in rets)
-    ctx.ob("C18.state", gen.short(), "cluster-id-1..255", ok, "cluster identifiers are drawn from randint(1, 255)", gen.loc)
+    ok = bool(rnd) and all(isinstance(P.try_fold(gen.module, n.args[0]), int) and P.try_fold(gen.module, n.args[0]) >= 1 and
+                           isinstance(P.try_fold(gen.module, n.args[1]), int) and P.try_fold(gen.module, n.args[1]) <= 255 for n in rnd)
+    for k, s_, st in gfl.exits:
+        if k == "return" and s_.value is not None and not (isinstance(s_.value, ast.Constant) and s_.value.value is None):
+            x = gfl.expand(s_.value, st)
+            ok = ok and isinstance(x, ast.Call) and dotted(x.func) == "random.randint"
+    ctx.ob("C18.state", gen.short(), "cluster-id-1..255", ok, "every non-None identifier returned is a draw from randint(lo >= 1, hi <= 255)", gen.loc)
     tc = mgr.methods["try_create_cluster"]
-    src = norm(unparse(tc.node))
-    ctx.ob("C18.state", tc.short(), "cluster-id-from-generator", "cluster_id=self._generate_unique_cluster_id(now)" in src and "_ClusterState(cluster_id=cluster_id," in src
-           and "ifcluster_idisNone:" in src, "the own cluster takes its id from the generator, None refused", tc.loc)
+    tcf = ctx.flows.get(tc)
+    cons = [n for n in ast.walk(tc.node) if isinstance(n, ast.Call) and dotted(n.func) == "_ClusterState"]
+    okg = bool(cons)
+    for n in cons:
+        kw = {k.arg: k.value for k in n.keywords}
+        v = kw.get("cluster_id", n.args[0] if n.args else None)
+        st = tcf.state_at(n)
+        x = tcf.expand(v, st) if v is not None else None
+        from_gen = isinstance(x, ast.Call) and dotted(x.func) == "self._generate_unique_cluster_id"
+        g = sem.facts(tcf, n)
+        not_none = v is not None and (sem.holds(g, f"{unparse(v)} is not None") or (x is not None and sem.holds(g, f"{unparse(x)} is not None")))
+        okg = okg and from_gen and not_none
+    ctx.ob("C18.state", tc.short(), "cluster-id-from-generator", okg, "the own cluster takes its id from the generator, and only when that is not None", tc.loc)
     minsz = P.try_fold(consts, consts.consts.get("MIN_CLUSTER_SIZE"))
     from ..match import int_lower_bound
 
@@ -369,49 +429,120 @@ def run(ctx):
     tx = P.cls(TXM)
     cb = tx.methods["location_service_callback"]
     cfl = ctx.flows.get(cb)
-    allg = [n for n in ast.walk(cb.node) if isinstance(n, ast.Call) and isinstance(n.func, ast.Attribute) and n.func.attr == "should_transmit_vam"]
-    gifs = [n for n in ast.walk(cb.node) if isinstance(n, ast.If) and any(isinstance(b, ast.Return) for b in n.body)
-            and any(x in allg for x in ast.walk(n.test))]
-    if len(gifs) != 1:
-        raise AnalysisError("C18: transmission gate (`if ... not should_transmit_vam(): return`) not found in location_service_callback")
-    gates = [x for x in ast.walk(gifs[0].test) if x in allg]
-    upd = [n for n in ast.walk(cb.node) if isinstance(n, ast.Call) and isinstance(n.func, ast.Attribute) and n.func.attr == "update"
-           and dotted(n.func.value) == "self.clustering_manager"]
-    ok = bool(upd) and all(u.lineno < gates[0].lineno for u in upd)
-    if ok:
-        g = guards_of(cfl, upd[0])
-        ok = g == ["not self.clustering_managerisNone"]
+    MGR_NOT_NONE = set(sem.want("self.clustering_manager is not None"))
+
+    def mgr_call(fl, c, method) -> bool:
+        """c is <clustering manager>.<method>(...), the receiver possibly a local bound to self.clustering_manager."""
+        if not (isinstance(c, ast.Call) and isinstance(c.func, ast.Attribute) and c.func.attr == method):
+            return False
+        try:
+            x = fl.expand(c.func.value, fl.state_at(c))
+        except AnalysisError:
+            return False
+        return dotted(x) == "self.clustering_manager"
+
+    def only_manager_guard(fl, node) -> bool:
+        g = sem.facts(fl, node)
+        g = {x for x in g if "clustering_manager" in x or True}
+        return g == MGR_NOT_NONE or g == (MGR_NOT_NONE | set(sem.want("self.clustering_manager")))
+
+    allg = [n for n in ast.walk(cb.node) if mgr_call(cfl, n, "should_transmit_vam")]
+    gifs = [n for n in ast.walk(cb.node) if isinstance(n, ast.If) and any(x in allg for x in ast.walk(n.test))]
+    # the gate: a test over should_transmit_vam() whose failing side leaves the function without sending
+    sends = [n for n in ast.walk(cb.node) if isinstance(n, ast.Call) and dotted(n.func) == "self.send_next_vam"]
+    if not sends:
+        raise AnalysisError("C18: location_service_callback no longer sends VAMs")
+    if not allg:
+        ctx.ob("C18.wiring", cb.short(), "gate-form", False, "the transmission path no longer consults should_transmit_vam()", cb.loc)
+    gate_ok = bool(allg)
+    suppress = set(sem.want("not self.clustering_manager.should_transmit_vam()"))
+    aliases = {n.targets[0].id for n in ast.walk(cb.node) if isinstance(n, ast.Assign) and isinstance(n.targets[0], ast.Name)
+               and dotted(n.value) == "self.clustering_manager"}
+
+    def unalias(a: str) -> str:
+        for al in aliases:
+            a = re.sub(rf"(?<![\w.]){al}(?![\w])", "self.clustering_manager", a)
+        return a
+    n_paths = 0
+    for snd in sends:
+        # every syntactic path to a transmission site passed `no manager` or `manager allowed transmission`
+        for pc in sem.path_conditions(cb.node, snd):
+            pc = {unalias(a) for a in pc}
+            n_paths += 1
+            fine = {"is(None,self.clustering_manager)", "truthy(self.clustering_manager.should_transmit_vam())", "!truthy(self.clustering_manager)"}
+            passed = bool(pc & fine) or any(a.startswith("or(") and set(a[3:-1].split("|")) <= fine for a in pc)
+            if not passed:
+                gate_ok = False
+    ctx.extra["gate_paths_examined"] = n_paths
+    ctx.ob("C18.wiring", cb.short(), "gate-precedes-sends", gate_ok and n_paths > 0,
+           f"all {n_paths} syntactic paths to the {len(sends)} transmission sites pass `no manager` or `should_transmit_vam() true`" if gate_ok and n_paths else
+           "a transmission site can be reached on a path that never consulted the clustering manager's should_transmit_vam() "
+           "(individual VAMs are not suppressed while passive / idle)", cb.loc)
+    # suppression happens for no other clustering reason: every early exit that depends on the manager is exactly the gate
+    extra_exits = []
+    for k, s_, st in cfl.exits:
+        if k != "return":
+            continue
+        g = sem.facts_of_state(st, True, False)
+        dep = {x for x in g if "clustering_manager" in x and not x.startswith("or(")}
+        if dep and not (dep <= (MGR_NOT_NONE | suppress | set(sem.want("self.clustering_manager.should_transmit_vam()")))):
+            extra_exits.append((s_.lineno, sorted(dep)))
+    ctx.ob("C18.wiring", cb.short(), "gate-form", not extra_exits and bool(gifs),
+           "the only clustering-dependent early exit is `manager present and should_transmit_vam() false`" if not extra_exits else
+           f"early exits depending on the clustering manager in another way: {extra_exits}", cb.loc)
+    upd = [n for n in ast.walk(cb.node) if mgr_call(cfl, n, "update")]
+    first_gate_line = min([n.lineno for n in allg] or [10 ** 9])
+    ok = bool(upd) and any(u.lineno < first_gate_line and sem.facts(cfl, u, True, False) <= (MGR_NOT_NONE | set(sem.want("self.clustering_manager"))) and
+                           bool(sem.facts(cfl, u, True, False) & (MGR_NOT_NONE | set(sem.want("self.clustering_manager")))) for u in upd)
     ctx.ob("C18.wiring", cb.short(), "update-every-cycle-before-gate", ok,
            "every generation cycle advances the clustering timers (update()) before the gate is consulted" if ok else
-           "VBSClusteringManager.update() is not called on every generation cycle before the gate: its timers never fire and a passive "
-           "station whose leader is gone stays silent for good", f"{cb.module.rel}:{gates[0].lineno}")
-    # the gate is the only clustering-dependent early exit and precedes every send
-    sends = [n for n in ast.walk(cb.node) if isinstance(n, ast.Call) and dotted(n.func) == "self.send_next_vam"]
-    ctx.ob("C18.wiring", cb.short(), "gate-precedes-sends", bool(sends) and all(s.lineno > gates[0].lineno for s in sends),
-           f"the gate precedes all {len(sends)} transmission sites", cb.loc)
-    gif = [n for n in ast.walk(cb.node) if isinstance(n, ast.If) and gates[0] in list(ast.walk(n.test))]
-    ok = len(gif) == 1 and norm(unparse(gif[0].test)).replace("(", "").replace(")", "") == "self.clustering_managerisnotNoneandnotself.clustering_manager.should_transmit_vam" \
-        and len(gif[0].body) == 1 and isinstance(gif[0].body[0], ast.Return) and not gif[0].orelse
-    ctx.ob("C18.wiring", cb.short(), "gate-form", ok, "suppression happens exactly when a manager exists and should_transmit_vam() is False", cb.loc)
+           "VBSClusteringManager.update() is not called on every generation cycle before the gate (whenever a manager exists): its timers never "
+           "fire and a passive station whose leader is gone stays silent for good", f"{cb.module.rel}:{first_gate_line if allg else cb.node.lineno}")
     sn = tx.methods["send_next_vam"]
-    src = norm(unparse(sn.node))
-    ctx.ob("C18.wiring", sn.short(), "info-container-attached",
-           "cluster_info=self.clustering_manager.get_cluster_information_container()" in src and
-           "ifcluster_infoisnotNone:params['vruClusterInformationContainer']=cluster_info" in src, "cluster information container attached under its VAM key", sn.loc)
-    ctx.ob("C18.wiring", sn.short(), "operation-container-attached",
-           "cluster_op=self.clustering_manager.get_cluster_operation_container()" in src and
-           "ifcluster_opisnotNone:params['vruClusterOperationContainer']=cluster_op" in src, "cluster operation container attached under its VAM key", sn.loc)
-    enc = src.find("self.vam_coder.encode(vam.vam)")
-    ctx.ob("C18.wiring", sn.short(), "attached-before-encoding", 0 < src.find("params['vruClusterOperationContainer']") < enc and "params=vam.vam['vam']['vamParameters']" in src,
-           "containers are attached to the dictionary that is encoded, before encoding", sn.loc)
+    sfl = ctx.flows.get(sn)
+    encs = [c for c in P.calls_in(sn) if isinstance(c.func, ast.Attribute) and c.func.attr == "encode"]
+    enc_line = min([c.lineno for c in encs] or [0])
+    for key, getter, tag in (("vruClusterInformationContainer", "get_cluster_information_container", "info-container-attached"),
+                             ("vruClusterOperationContainer", "get_cluster_operation_container", "operation-container-attached")):
+        okk, why = False, "no store under that key"
+        for n in ast.walk(sn.node):
+            if isinstance(n, ast.Assign) and isinstance(n.targets[0], ast.Subscript) and P.try_fold(sn.module, n.targets[0].slice) == key and id(n) in sfl.before:
+                st = sfl.before[id(n)]
+                base = sem.cx(sfl.expand(n.targets[0].value, st))
+                val = sfl.expand(n.value, st)
+                from_getter = isinstance(val, ast.Call) and isinstance(val.func, ast.Attribute) and val.func.attr == getter and \
+                    dotted(val.func.value) == "self.clustering_manager" and not val.args
+                g = sem.facts(sfl, n, True, False)
+                gl = {x for x in g}
+                vtxt = sem.cx(val)
+                allowed = MGR_NOT_NONE | set(sem.want("self.clustering_manager")) | {f"!is(None,{vtxt})", f"truthy({vtxt})", f"!is(None,{sem.cx(n.value)})", f"truthy({sem.cx(n.value)})"}
+                okk = base == "vam.vam['vam']['vamParameters']" and from_getter and gl <= allowed and n.lineno < enc_line
+                why = f"store base `{base}`, value `{vtxt[:60]}`, guards {sorted(gl)}"
+        ctx.ob("C18.wiring", sn.short(), tag, okk,
+               f"the manager's {getter}() result is attached under '{key}' of the dictionary that is encoded, before encoding, whenever it is not None" if okk else
+               f"'{key}' is not attached from {getter}() into vam.vam['vam']['vamParameters'] before encoding under the plain not-None guards ({why})", sn.loc)
+    ctx.ob("C18.wiring", sn.short(), "attached-before-encoding", bool(encs) and all(sem.cx(sfl.expand(c.args[0], sfl.state_at(c))) == "vam.vam" for c in encs if c.args),
+           "the dictionary that received the containers is the one handed to the coder", sn.loc)
     rx = P.cls(RXM)
     rc = rx.methods["reception_callback"]
-    src = norm(unparse(rc.node))
-    ctx.ob("C18.wiring", rc.short(), "received-vam-forwarded", "vam=self.vam_coder.decode(btp_indication.data)" in src and
-           "ifself.clustering_managerisnotNone:self.clustering_manager.on_received_vam(vam)" in src, "every decoded VAM is handed to the clustering manager", rc.loc)
+    rfl = ctx.flows.get(rc)
+    fw = [c for c in ast.walk(rc.node) if mgr_call(rfl, c, "on_received_vam")]
+    okf = bool(fw)
+    for c in fw:
+        arg = c.args[0] if c.args else None
+        srcs = [d.value for d in rfl.reaching(arg.id, rfl.state_at(c))] if isinstance(arg, ast.Name) else [arg]
+        dec = all(isinstance(v, ast.Call) and isinstance(v.func, ast.Attribute) and v.func.attr == "decode" and v.args and
+                  sem.cx(v.args[0]) == f"{rc.params[1]}.data" for v in srcs) and bool(srcs)
+        okf = okf and dec and sem.facts(rfl, c, True, False) <= (MGR_NOT_NONE | set(sem.want("self.clustering_manager"))) and bool(sem.facts(rfl, c, True, False))
+    ctx.ob("C18.wiring", rc.short(), "received-vam-forwarded", okf,
+           "every decoded VAM is handed to the clustering manager (whenever one exists)" if okf else
+           "not every decoded VAM reaches VBSClusteringManager.on_received_vam (missing call, extra guard, or another object passed)", rc.loc)
     orv = mgr.methods["on_received_vam"]
-    ctx.ob("C18.wiring", orv.short(), "processing-under-lock", "withself._lock:try:self._process_received_vam(vam)" in norm(unparse(orv.node)),
-           "received VAMs are processed under the manager's lock", orv.loc)
+    ofl = ctx.flows.get(orv)
+    pc = [c for c in P.calls_in(orv) if dotted(c.func) == "self._process_received_vam"]
+    okp = bool(pc) and all(any(l.endswith("._lock") for l in ofl.state_at(c).locks) and not sem.facts(ofl, c) and
+                           c.args and sem.cx(c.args[0]) == orv.params[1] for c in pc)
+    ctx.ob("C18.wiring", orv.short(), "processing-under-lock", okp, "received VAMs are processed unconditionally under the manager's lock", orv.loc)
 
     # ------------------------------------------------------------------ coder agreement (cluster containers only)
     Mm = MU.Messages(ctx)
